@@ -224,12 +224,22 @@ def main(modname, argv=None):
             tot[k] += r[k]
         violations += r["violations"]
         inconclusive += r["inconclusive"]
-        if len(samples) < 6:
-            samples += r["samples"][: 6 - len(samples)]
+        samples += r["samples"][:2]
         functions |= set(r["functions"])
         sources.update(r.get("sources", {}))
         nontrivial |= set(r["nontrivial"])
         tot["n_nontrivial"] += r["n_nontrivial"]
+
+    # evidence samples: one per kind of configuration first (group / kind / step / program / loop ...), at most 10
+    def _skey(smp):
+        c_ = smp.get("config") or {}
+        return tuple(str(c_.get(k)) for k in ("group", "kind", "step", "prog", "cls", "loop", "which"))
+
+    seen_k, picked, rest = set(), [], []
+    for smp in samples:
+        (picked if _skey(smp) not in seen_k else rest).append(smp)
+        seen_k.add(_skey(smp))
+    samples = (picked + rest)[:10]
 
     # vacuity guard
     if not harness_errors and (tot["paths"] == 0 or tot["obligations"] == 0):
